@@ -13,20 +13,28 @@ Vocabulary of the statements
                      integer or pointer; bit-fields are initialised by integer constants; no struct- or union-valued
                      expression (those exist for automatic objects only); a union without chosen member carries no expression.
 * `leaves init ty 0` — the initialised scalar leaves with their storage locations.
-* `InitSpec.tyOk ty` — the declared types the general parser = 6.7.9 theorem covers: no flexible array member, an array of
-                     unknown bound only as the declared type itself (as in C), every union has a named member (C11 6.7.2.1p8).
-* `r.fl.clean`     — the run of the specification on the token list lies in none of the three regions `BraceOverride`
+* `InitSpec.tyOk ty` — the declared types the general parser = 6.7.9 theorem covers: an array of unknown bound only as the
+                     declared type itself, a flexible array member only as the last member of the declared struct itself (both
+                     as in C), every union has a named member (C11 6.7.2.1p8).
+* `r.fl.clean`     — the run of the specification on the token list lies in none of the four regions `BraceOverride`
                      (known finding C05-brace-override-keeps-old), `AggExprOverride` (an initializer for a subobject inside a
                      struct/union that an expression of struct/union type initialised - a genuine defect, see Findings/C05.lean),
                      `WideRange` (a GNU range designator `[a ... b]`, a < b, that is followed by a further designator or whose
                      initializer has elided braces - no C11 semantics, chibicc and gcc differ by design; ranges whose
-                     initializer is brace-enclosed, a string literal or one scalar expression are covered).
+                     initializer is brace-enclosed, a string literal or one scalar expression are covered),
+                     `FlexReinit` (the flexible array member of the declared object - GNU: static initialization of a flexible
+                     array member, no C11 semantics - is initialised again after an earlier initializer of the list initialised
+                     it: a designator names it, or the cursor comes back to it from the member before it.  gcc lets the array
+                     grow with every initializer, chibicc fixes its length at the first one; Findings/C05.lean).  The region is
+                     empty for every type without flexible array member (`C05_parse_spec_three_regions`).
 -/
 import ChibiVerif.Model.Init
 import ChibiVerif.Spec.InitSpec
 import ChibiVerif.Lemmas.InitTreeLemmas
 import ChibiVerif.Lemmas.InitFuelLemmas
-import ChibiVerif.Lemmas.InitIncLemmas
+import ChibiVerif.Lemmas.InitFlexLemmas
+import ChibiVerif.Lemmas.InitFlexSize
+import ChibiVerif.Lemmas.InitCursorLemmas
 
 namespace ChibiVerif.Props.C05
 open ChibiVerif.Init
@@ -104,28 +112,44 @@ example : (parseInit exTy [.lbrace, .expr (Expr.num 1), .comma, .dot "a", .idx 1
     `Findings.C05.C05_finding_brace_override` (known finding C05-brace-override-keeps-old) and inside `InitSpec.AggExprOverride` by
     `Findings.C05.C05_finding_agg_expr_override`; inside `InitSpec.WideRange` (range designator followed by a further
     designator, or with elided braces) parser and specification follow different (GNU) conventions
-    (`Findings.C05.C05_note_wide_range`).  Outside the three regions it is PROVED below for every declared type
-    without a flexible array member (`C05_parse_spec_partial`); what is missing for the full statement outside the regions is
-    exactly: declared struct types with a flexible array member (covered by the exhaustive scope `C05_parse_spec_scope_flex`
-    and by the tested tie), and type terms that no C declaration produces (an array of unknown bound as a member or element, a
-    union without named member). -/
+    (`Findings.C05.C05_note_wide_range`); inside `InitSpec.FlexReinit` (a second initializer for the flexible array member)
+    chibicc keeps the length of the first initializer, the specification (gcc) lets the array grow
+    (`Findings.C05.C05_note_flex_reinit`).  Outside the four regions it is PROVED below for every declared type
+    (`C05_parse_spec_partial`: scalars, arrays, arrays of unknown bound, structs - the declared struct may end in a flexible array
+    member -, unions); what is missing for the full statement outside the regions is exactly type terms that no C declaration
+    produces: an array of unknown bound or a struct with flexible array member as a member or element, a union with a flexible
+    array member (gcc 12: "flexible array member in union"), a union without named member. -/
 def C05_parse_spec_Statement : Prop :=
   ∀ (ty : Ty) (toks : List ITok) (p : Init × List ITok) (r : InitSpec.Result),
     parseInit ty toks = .ok p → InitSpec.initFull ty toks = .ok r → Init.beq p.1 r.obj = true ∧ p.2 = r.rest
 
-/-- **C05 (parser = 6.7.9), proved by induction for ALL covered types and ALL token lists.**  For every declared type `ty` without
-    flexible array member (`tyOk`: scalars, arrays, arrays of unknown bound, structs, unions, bit-fields, unnamed bit-fields,
-    anonymous members, to any depth) and every token list: if the transcription of parse.c's twelve mutually recursive functions
-    (`parseInit`, with its standard fuel) accepts it and the cursor-machine specification of 6.7.9 (`initFull`) accepts it outside
-    the three regions, then the two build the same `Initializer` tree - the same object value, the same array bound - and stop
-    at the same token.  Proof: simulation of every parser function by steps of the specification's list (`Lemmas/InitSim*.lean`,
-    induction on the recursion fuel), the counting dry run and the real run consume the same tokens
-    (`Lemmas/InitEraseLemmas.lean`), lockstep of count, parser loop and specification for arrays of unknown bound
-    (`Lemmas/InitIncLemmas.lean`). -/
+/-- **C05 (parser = 6.7.9), proved by induction for ALL covered types and ALL token lists.**  For every declared type `ty`
+    (`tyOk`: scalars, arrays, arrays of unknown bound, structs - the declared struct itself may end in a FLEXIBLE ARRAY MEMBER -,
+    unions, bit-fields, unnamed bit-fields, anonymous members, to any depth) and every token list: if the transcription of
+    parse.c's twelve mutually recursive functions (`parseInit`, with its standard fuel) accepts it and the cursor-machine
+    specification of 6.7.9 (`initFull`) accepts it outside the four regions, then the two build the same `Initializer` tree - the
+    same object value, the same array bound, the same length of the flexible member - and stop at the same token.  Proof:
+    simulation of every parser function by steps of the specification's list (`Lemmas/InitSim*.lean`, induction on the recursion
+    fuel), the counting dry run and the real run consume the same tokens (`Lemmas/InitEraseLemmas.lean`), lockstep of count,
+    parser loop and specification for arrays of unknown bound (`Lemmas/InitIncLemmas.lean`) and for the flexible member, whose
+    length `new_initializer(is_flexible)` leaves open until the first initializer reaches it: a brace-enclosed list
+    (`array_initializer1`: the lockstep of arrays of unknown bound again), a string literal, or elided braces
+    (`array_initializer2` counts over the rest of the struct's list: `flexLoop`), with `struct_initializer1/2` around it
+    (`Lemmas/InitFlexLemmas.lean`). -/
 theorem C05_parse_spec_partial (ty : Ty) (toks : List ITok) (p : Init × List ITok) (r : InitSpec.Result)
     (hty : InitSpec.tyOk ty = true) (hp : parseInit ty toks = .ok p) (hs : InitSpec.initFull ty toks = .ok r)
     (hr : r.fl.clean = true) : p.1 = r.obj ∧ p.2 = r.rest :=
   InitSpec.parse_spec_tyOk hty hp hs hr
+
+/-- the fourth region does not weaken the theorem for the types it covered before: for a declared type WITHOUT flexible array
+    member the region `FlexReinit` is empty, so the three regions `BraceOverride`, `AggExprOverride`, `WideRange` suffice -/
+theorem C05_parse_spec_three_regions (ty : Ty) (toks : List ITok) (p : Init × List ITok) (r : InitSpec.Result)
+    (hty : InitSpec.tyOk ty = true) (hnf : InitSpec.isFlexRoot ty = false) (hp : parseInit ty toks = .ok p)
+    (hs : InitSpec.initFull ty toks = .ok r) (hr : r.fl.over = false ∧ r.fl.xover = false ∧ r.fl.wide = false) :
+    p.1 = r.obj ∧ p.2 = r.rest := by
+  refine C05_parse_spec_partial ty toks p r hty hp hs ?_
+  have h4 := InitSpec.initFull_reinit_noflex hnf hs
+  simp [InitSpec.Flags.clean, hr.1, hr.2.1, hr.2.2, h4]
 
 /-- … in the form of the full statement (tree equality as the driver prints it: `Init.beq`) -/
 theorem C05_parse_spec_partial_beq (ty : Ty) (toks : List ITok) (p : Init × List ITok) (r : InitSpec.Result)
@@ -196,8 +220,9 @@ example : InitSpec.tyOk scopeQ = true ∧
 theorem C05_parse_spec_scope_struct : ∀ first ∈ alphaS, (scope alphaS 4 first).all (agreeOn scopeS) = true := by
   decide +kernel
 
-/-- scope 2: bit-field, unnamed bit-field, union and FLEXIBLE array member (not covered by `C05_parse_spec_partial`);
-    `{ t₁ … t₄` over 9 tokens (6561 lists) -/
+/-- scope 2: bit-field, unnamed bit-field, union and FLEXIBLE array member; `{ t₁ … t₄` over 9 tokens (6561 lists).
+    (Since the flexible member is covered by `C05_parse_spec_partial` this scope re-checks the definitions by evaluation; it
+    also covers lists inside `FlexReinit` on which parser and specification happen to agree.) -/
 theorem C05_parse_spec_scope_flex : ∀ first ∈ alphaF, (scope alphaF 3 first).all (agreeOn scopeF) = true := by
   decide +kernel
 
@@ -210,10 +235,82 @@ example : agreeOn scopeF [.lbrace, one, .comma, .dot "f", .eq, .lbrace, one, .co
     ((parseInit scopeF [.lbrace, one, .comma, .dot "f", .eq, .lbrace, one, .comma, one, .rbrace, .rbrace]).toOption.map
       (fun p => (resolveTy scopeF p.1).size)) = some 20 := by decide +kernel
 
+/-- `struct { int a; struct { int x, y; } f[]; }`: a flexible array member of structs -/
+def scopeGms : Members := [(⟨some "a", 0, none⟩, tInt),
+  (⟨some "f", 4, none⟩, .array (.struct [(⟨some "x", 0, none⟩, tInt), (⟨some "y", 4, none⟩, tInt)] 8 false) 0)]
+def scopeG : Ty := .struct scopeGms 4 true
+
+/-- non-vacuity of `C05_parse_spec_partial` for a flexible array member: the type is covered, and
+    `{ 1, 1, 1, { 1 }, 1 }` (elided braces: `count_array_init_elements` runs over the rest of the struct's list and finds 3
+    elements) and `{ .f = { [2].y = 1, { 1, 1 } }, .a = 1 }` (designated, brace-enclosed: 4 elements; then another member)
+    satisfy every hypothesis -/
+example : InitSpec.tyOk scopeG = true ∧
+    ((parseInit scopeG [.lbrace, one, .comma, one, .comma, one, .comma, .lbrace, one, .rbrace, .comma, one, .rbrace]).toOption.map
+      (fun p => (resolveTy scopeG p.1).size)) = some 28 ∧
+    ((InitSpec.initFull scopeG [.lbrace, one, .comma, one, .comma, one, .comma, .lbrace, one, .rbrace, .comma, one, .rbrace]).toOption.map
+      (fun r => (r.fl.clean, (resolveTy scopeG r.obj).size))) = some (true, 28) := by decide +kernel
+example :
+    ((parseInit scopeG [.lbrace, .dot "f", .eq, .lbrace, .idx 2, .dot "y", .eq, one, .comma, .lbrace, one, .comma, one, .rbrace, .rbrace,
+        .comma, .dot "a", .eq, one, .rbrace]).toOption.map (fun p => (resolveTy scopeG p.1).size)) = some 36 ∧
+    ((InitSpec.initFull scopeG [.lbrace, .dot "f", .eq, .lbrace, .idx 2, .dot "y", .eq, one, .comma, .lbrace, one, .comma, one, .rbrace, .rbrace,
+        .comma, .dot "a", .eq, one, .rbrace]).toOption.map (fun r => (r.fl.clean, (resolveTy scopeG r.obj).size))) = some (true, 36) := by
+  decide +kernel
+
+/-- **C05 (flexible array member: length).**  Outside the four regions the flexible member of the object the parser builds has
+    exactly the elements the specification's growing array has - the largest index that receives an initializer, plus one - and
+    the type `initializer()` makes for the object (`resolveTy`: the struct type copied, its last member re-typed `elem[n]`) is the
+    same for both, so `sizeof` the object agrees. -/
+theorem C05_flex_count (ms : Members) (sz : Nat) (toks : List ITok) (p : Init × List ITok) (r : InitSpec.Result)
+    (hty : InitSpec.flexOkMs ms = true) (hp : parseInit (.struct ms sz true) toks = .ok p)
+    (hs : InitSpec.initFull (.struct ms sz true) toks = .ok r) (hr : r.fl.clean = true) :
+    flexResolved ms p.1.children = flexResolved ms r.obj.children ∧
+      resolveTy (.struct ms sz true) p.1 = resolveTy (.struct ms sz true) r.obj := by
+  rw [(C05_parse_spec_partial (.struct ms sz true) toks p r hty hp hs hr).1]
+  exact ⟨rfl, rfl⟩
+
+/-- **C05 (flexible array member: size of the object).**  Whatever tree `init` the parser has built for a struct type with flexible
+    array member `elem[]`: when the member's node has `n` elements (`flexResolved`: `n` = 0 if no initializer reached it), the type
+    `initializer()` gives the object has `sizeof(struct) + n · sizeof(elem)` bytes, and the static object (`write_gvar_data` into
+    `calloc(1, var->ty->size)`, emitted by `emit_data`) and the automatic object (ND_MEMZERO over `var->ty->size` bytes, then the
+    assignments) are the same `sizeof(struct) + n · sizeof(elem)` cells. -/
+theorem C05_flex_size (ms : Members) (sz : Nat) (init : Init) (el : Ty) (n : Nat)
+    (hfl : flexResolved ms init.children = some (el, n))
+    (hw : wf (resolveTy (.struct ms sz true) init) = true) (hf : fits init (resolveTy (.struct ms sz true) init) = true)
+    (hel : wf el = true) :
+    (resolveTy (.struct ms sz true) init).sz = sz + el.sz * n ∧
+    ∃ cells, staticObject init (resolveTy (.struct ms sz true) init) = .ok cells ∧
+      autoObject init (resolveTy (.struct ms sz true) init) = .ok cells ∧ cells.length = sz + el.sz * n := by
+  have hsize := resolveTy_flex_size ms sz init el n hfl (wf_size_nonneg el hel)
+  obtain ⟨im', hs, ha, hlen, hrel, _, _⟩ := both_from_leaves _ init hw hf
+  refine ⟨hsize, im'.cells, by simp only [staticObject, hs]; rfl, ha, ?_⟩
+  rw [cells_length im' _ hlen hrel, hsize]
+
+/-- non-vacuity: `struct { int a; struct { int x, y; } f[]; } = { 1, 1, 1, { 1 }, 1 }`: three elements, 4 + 3·8 = 28 bytes in both
+    storage classes -/
+example : ((parseInit scopeG [.lbrace, one, .comma, one, .comma, one, .comma, .lbrace, one, .rbrace, .comma, one, .rbrace]).toOption.map
+      (fun p => ((flexResolved scopeGms p.1.children).map (·.2),
+        wf (resolveTy scopeG p.1), fits p.1 (resolveTy scopeG p.1),
+        ((staticObject p.1 (resolveTy scopeG p.1)).toOption.map (·.length)),
+        ((autoObject p.1 (resolveTy scopeG p.1)).toOption.map (·.length))))) = some (some 3, true, true, some 28, some 28) := by
+  decide +kernel
+
+/-- **C05 (the relocation cursor of `write_gvar_data`).**  `Model/InitCursor.lean` keeps the relocation list as the C code does - a
+    linked list behind `head` and the cursor `cur`; `cur->next = rel` drops whatever hung behind `cur`.  When every arm hands on
+    the cursor of its recursive calls, as the code does - `cur = write_gvar_data(…)` in the array loop and in the struct's member
+    loop (`continue` for a bit-field), `return write_gvar_data(…)` for the union's initialised member - the list is the one
+    `writeGvar` appends to (which `C05_backends_agree` and `C05_emit` are about) and the returned cursor is its last node, for
+    every tree, type, image and offset.  (An arm that returns the cursor it was given loses relocations:
+    `Findings.C05.C05_cursor_arms`; the seeded change C05b did this to the union arm.) -/
+theorem C05_reloc_cursor (init : Init) (ty : Ty) (im : Image) (off : Nat) :
+    writeGvarC Arms.code init ty im im.relocs.length off = withEnd (writeGvar init ty im off) ∧
+      gvarInitC Arms.code init ty = gvarInit init ty :=
+  ⟨writeGvarC_end init ty im off, gvarInitC_code init ty⟩
+
 /-- **C05 (count), full statement.**  For an array of unknown bound the length `count_array_init_elements` gives the object is the
     specification's: the largest indexed element with an explicit initializer, plus one (6.7.9p22).  Proved below
     (`C05_count_partial`) for every element type without flexible array member outside the regions `AggExprOverride` and
-    `WideRange` as well; missing for the full statement: those two regions and element types that are not C types. -/
+    `WideRange` as well (the flexible array member of a declared struct: `C05_flex_count`); missing for the full statement: those
+    two regions and element types that are not C types. -/
 def C05_count_Statement : Prop :=
   ∀ (elem : Ty) (toks : List ITok) (p : Init × List ITok) (r : InitSpec.Result),
     parseInit (.inc elem) toks = .ok p → InitSpec.initFull (.inc elem) toks = .ok r → r.over = false →
